@@ -25,6 +25,8 @@ enum Op {
     DecodeStr,
     DecodePath,
     Bpm,
+    /// decode a fresh copy, ask for its bpm, drop it (recycled addresses / history-free evaluation)
+    BpmFresh,
     Convert(GameMode, u8),
     Difficulty(GameMode),
     Strains(GameMode),
@@ -50,6 +52,13 @@ fn run_op(op: &Op, e: &Entry, spec: &SetSpec, sc: &ScoreSpec, states: &[ScoreSta
             dump(&bracket("decode", || Beatmap::from_path(tmp).map_err(|e| e.kind())))
         }
         Op::Bpm => format!("{:?}", bracket("bpm", || map.bpm()).to_bits()),
+        Op::BpmFresh => {
+            let fresh = Beatmap::from_bytes(e.text.as_bytes());
+            match fresh {
+                Ok(m) => format!("{:?}", bracket("bpm", || m.bpm()).to_bits()),
+                Err(_) => "decode-error".into(),
+            }
+        }
         Op::Convert(m, how) => {
             let mods = spec.mods.to_gamemods(*m);
             match how {
@@ -124,7 +133,7 @@ fn op_name(op: &Op) -> String {
         Op::DecodeBytes => "decode_bytes".into(),
         Op::DecodeStr => "decode_str".into(),
         Op::DecodePath => "decode_path".into(),
-        Op::Bpm => "bpm".into(),
+        Op::Bpm | Op::BpmFresh => "bpm".into(),
         Op::Convert(m, how) => format!("convert{how}:{}", mode_name(*m)),
         Op::Difficulty(m) => format!("difficulty:{}", mode_name(*m)),
         Op::Strains(m) => format!("strains:{}", mode_name(*m)),
@@ -142,7 +151,8 @@ fn gen_op(rng: &mut Rng, map: &Beatmap) -> Op {
         0 => Op::DecodeBytes,
         1 => Op::DecodeStr,
         2 => Op::DecodePath,
-        3 | 4 | 5 => Op::Bpm,
+        3 | 4 => Op::Bpm,
+        5 => Op::BpmFresh,
         6 | 7 => Op::Convert(*rng.pick(&crate::maps::MODES), rng.below(3) as u8),
         8 | 9 => Op::Difficulty(m),
         10 => Op::Strains(m),
@@ -151,6 +161,30 @@ fn gen_op(rng: &mut Rng, map: &Beatmap) -> Op {
         14 => Op::GradualPerformance(m),
         _ => Op::Attributes(m),
     }
+}
+
+/// Same file with the uninherited beat lengths replaced (times and line count unchanged).
+fn sibling_text(rng: &mut Rng, text: &str) -> String {
+    let mut in_tp = false;
+    let mut out = Vec::new();
+    for line in text.lines() {
+        let t = line.trim();
+        if t.starts_with('[') {
+            in_tp = t == "[TimingPoints]";
+            out.push(line.to_string());
+            continue;
+        }
+        if in_tp {
+            let mut parts: Vec<String> = line.split(',').map(str::to_string).collect();
+            if parts.len() >= 2 && parts[1].trim().parse::<f64>().map_or(false, |v| v > 0.0) {
+                parts[1] = (*rng.pick(&["300", "400", "500", "600", "250", "375", "750", "428.571428571429"])).to_string();
+                out.push(parts.join(","));
+                continue;
+            }
+        }
+        out.push(line.to_string());
+    }
+    out.join("\n")
 }
 
 #[allow(clippy::too_many_lines)]
@@ -187,6 +221,16 @@ pub fn case(ctx: &mut Ctx, idx: u64) {
                 },
             )
             .text,
+        };
+        // a sibling of the previous map: same shape (line count, times), different beat lengths, so that a result
+        // remembered by address / shape instead of content would be wrong
+        let text = if k > 0 && rng.chance(0.35) {
+            match pool.last() {
+                Some(prev) => sibling_text(&mut rng, &prev.text),
+                None => text,
+            }
+        } else {
+            text
         };
         let Some(map) = crate::maps::decode(&text) else { continue };
         if crate::maps::out_of_domain(&map, crate::maps::Domain::Adversarial, 400).is_some() {
